@@ -5,7 +5,7 @@ import itertools
 import pipeline
 TRUSTED_BASE = ['reference accounting of the model (Proxy.rc_ok) and of the implementation dump; lock classes are assigned by mutex address in harness/hlock.inc; request objects tracked from newrequest to free() by a macro redirection inside the harness translation unit']
 ASSUMPTIONS = ['handlers run one at a time (the real writer threads are stepped deterministically); true concurrent interleavings are not explored']
-RULE = 'every order (up to the depth bound) of {request, retransmission, id reuse, other client, reply, bogus reply, writer pass, timer step, reconnect, client disconnect, drain, stray reply}; random long histories; dynamic-server discovery failure with 1..6 queued requests'
+RULE = 'every order (up to the depth bound) of {request, retransmission, id reuse, a packet of an unsupported code with the same identifier, other client, reply, bogus reply, writer pass, timer step, reconnect, client disconnect, drain, stray reply}; random long histories; dynamic-server discovery failure with 1..6 queued requests'
 
 def base_cfg(rng, statsrv=0, dupint=10, tcp=False):
     cfg = pipeline.Cfg()
@@ -36,12 +36,15 @@ def event_ops(rng, cfg, word):
     r0, _ = pipeline.clean_request(rng, cfg, 0, code=1, ident=1, uname=uname)
     r1, _ = pipeline.clean_request(rng, cfg, 0, code=1, ident=1, uname=uname)
     r2, _ = pipeline.clean_request(rng, cfg, 1, code=1, ident=1, uname=uname)
+    # a packet of a code the proxy does not forward (Access-Accept sent by a client) carrying the Identifier of the request
+    ru, _ = pipeline.clean_request(rng, cfg, 0, code=rng.choice([2, 5, 3, 11, 40]), ident=1, uname=uname, ma=False)
     gone = set()
     first = 1 if cfg.servers[0].statsrv != 0 else 0
     for e in word:
         rnd = pipeline.rnd40(rng)
         if e == 'A' and 0 not in gone: ops.append('op cpkt 0 %d %s %s' % (now, rnd, hx(r0)))
         elif e == 'C' and 0 not in gone: ops.append('op cpkt 0 %d %s %s' % (now, rnd, hx(r1)))
+        elif e == 'U' and 0 not in gone: ops.append('op cpkt 0 %d %s %s' % (now, rnd, hx(ru)))
         elif e == 'D' and 1 not in gone: ops.append('op cpkt 1 %d %s %s' % (now, rnd, hx(r2)))
         elif e == 'E': ops.append('op sreply 0 %d %d %s 2 - 80:auto' % (first, now, rnd))
         elif e == 'F': ops.append('op sreply 0 %d %d %s 2 badauth 80:auto' % (first, now, rnd))
@@ -58,7 +61,7 @@ def event_ops(rng, cfg, word):
         elif e == 'K' and 0 not in gone: ops.append('op drain 0')
     return ops
 
-ALPHABET = 'ACDEFLGHTIJK'
+ALPHABET = 'ACDEFLGHTIJKU'
 
 def dyn_case(rng, k):
     cfg = base_cfg(rng, statsrv=rng.randrange(4), dupint=60)     # nothing else expires during the flush
